@@ -164,6 +164,21 @@ fn big<const M: u32>(rng: &mut Rng, t: &mut TraceWriter, n: usize) {
     }
 }
 
+/// beyond the listed property: Show for Modular<M> (rational reconstruction) for a prime modulus
+fn show_tables<const M: u32>(t: &mut TraceWriter) {
+    use rlib_show::{Show, ShowSettings};
+    for (mx, rat) in [(0i64, true), (1, true), (3, true), (3, false), (6, true), (100, true)] {
+        let mut st = ShowSettings::new();
+        st.mint_max = mx;
+        st.mint_rational = rat;
+        let r = catch(|| (0..M as i64).map(|v| json!([v, Modular::<M>::new(v).show(&st).into_bytes()])).collect::<Vec<_>>());
+        match r {
+            Ok(rows) => t.ev(json!({"ev": "show", "op": "show", "m": M, "max": mx, "rational": rat, "rows": rows})),
+            Err(p) => t.ev(json!({"ev": "big", "op": "show", "m": bn(M as u128), "panic": p})),
+        }
+    }
+}
+
 macro_rules! small_moduli {
     ($t:expr, $max:expr, $($m:literal),*) => { $( if $m <= $max { tables::<$m>($t); } )* };
 }
@@ -172,11 +187,19 @@ pub fn record(seed: u64, tier: &str, out: &str) {
     let thorough = tier == "thorough";
     let mut rng = Rng::new(seed ^ 0xC06);
     let mut t = TraceWriter::create(out);
-    let max: u32 = if thorough { 48 } else { 24 };
+    let max: u32 = if thorough { 48 } else { 40 };
     small_moduli!(&mut t, max, 2, 3, 4, 5, 6, 7, 8, 9, 10, 11, 12, 13, 14, 15, 16, 17, 18, 19, 20, 21, 22, 23, 24, 25, 26, 27, 28, 29, 30,
                   31, 32, 33, 34, 35, 36, 37, 38, 39, 40, 41, 42, 43, 44, 45, 46, 47, 48);
+    show_tables::<5>(&mut t);
+    show_tables::<7>(&mut t);
+    show_tables::<13>(&mut t);
+    show_tables::<31>(&mut t);
+    if thorough {
+        show_tables::<101>(&mut t);
+        show_tables::<251>(&mut t);
+    }
     let tabs = t.events;
-    let n = if thorough { 3000 } else { 420 };
+    let n = if thorough { 3000 } else { 1000 };
     big::<998244353>(&mut rng, &mut t, n);
     big::<1000000007>(&mut rng, &mut t, n);
     big::<2147483647>(&mut rng, &mut t, n); // 2^31 - 1 (prime)
